@@ -139,5 +139,7 @@ def run(ctx, rule_module) -> None:
     ctx.r.selftest = out
     if not ctx.r.quiet:
         print("selftest: %s" % out["summary"])
+        for x in out["skipped"]:
+            print("selftest: skipped %s (%s)" % (x["name"], x["why"]))
     if failures:
         raise AnalysisError("self-test failed: " + "; ".join(failures))
